@@ -311,7 +311,8 @@ function familyQ (tier, opts = {}) {
   // (paths that are static all the way down to an identifier are the stated exemption: when reading one throws,
   // the this argument has or has not been evaluated yet, which is exactly the order the exemption leaves open -
   // those are covered by the holders above, whose reads succeed)
-  const bases = ['g()', '(o)', 'new X', '(0, o)', 'o?.q']
+  // (a parenthesised name, `(o)`, is a static base as well)
+  const bases = ['g()', 'new X', '(0, o)', 'o?.q', '(c ? o : X)']
   const links = tier === 'thorough' ? ['.prototype', '.q', '[k]', '[0]', '[g()]', "['q']"] : ['.q', '[k]', '[0]', '[g()]']
   const paths = []
   for (const b of bases) { paths.push(b); for (const l0 of links) { paths.push(b + l0); for (const l1 of links) paths.push(b + l0 + l1) } }
